@@ -1,11 +1,11 @@
 #!/bin/bash
-# Generates /verif/build/overlay.json: a toolchain overlay that makes Go map iteration order
+# Generates $ROOT/build/overlay.json: a toolchain overlay that makes Go map iteration order
 # a deterministic function of a harness-controlled "map mode" (see DESIGN.md section 1).
 set -euo pipefail
-. /verif/scripts/env.sh
+. "$(dirname "$0")/env.sh"
 GOROOT_DIR=$(go env GOROOT)
 SRC=$GOROOT_DIR/src/internal/runtime/maps
-OUT=/verif/build
+OUT=$ROOT/build
 mkdir -p $OUT
 # table.go: iteration start offsets
 n=$(grep -c 'it.entryOffset = rand()' $SRC/table.go || true)
